@@ -292,6 +292,9 @@ func main() {
 	farCounters(r, rnd)
 	duplex(r, rnd)
 	queued(r, rnd)
+	failingSources(r, rnd)
+	r.Floor("encrypt_calls_with_a_failing_source", int(r.Counter("encrypt_calls_with_a_failing_source")), 500)
+	r.Floor("healthy_messages_after_failures", int(r.Counter("healthy_messages_after_failures")), 500)
 	r.Floor("queued_messages", int(r.Counter("queued_messages")), 1000)
 	r.Floor("messages_roundtripped", int(r.Counter("messages_roundtripped")), 1000)
 	r.Floor("duplex_messages", int(r.Counter("duplex_messages")), 10000)
@@ -613,4 +616,122 @@ func farCounters(r *vf.Run, rnd *rand.Rand) {
 		r.Nontrivial(fmt.Sprintf("far-counter/%d", at))
 	}
 	r.Floor("far_counter_positions", int(r.Counter("far_counter_positions")), len(marks))
+}
+
+// failingReader delivers the first k bytes of b (in chunks) and then fails with an error that is not io.EOF.
+type failingReader struct {
+	b     []byte
+	k     int
+	chunk int
+}
+
+var errSource = fmt.Errorf("source failed (injected)")
+
+func (f *failingReader) Read(p []byte) (int, error) {
+	if f.k <= 0 {
+		return 0, errSource
+	}
+	n := f.chunk
+	if n > f.k {
+		n = f.k
+	}
+	if n > len(p) {
+		n = len(p)
+	}
+	copy(p, f.b[:n])
+	f.b, f.k = f.b[n:], f.k-n
+	return n, nil
+}
+
+// failingSources: the io.Reader an Encrypt call reads its payload from fails part-way (a body that is streamed from
+// somewhere else).  Whatever Encrypt then returns, the frames it hands to its caller over the life of the session are
+// the only frames the peer ever sees: they must authenticate at consecutive counters 0, 1, 2, ... (a frame that was
+// sealed and then thrown away must not have used up a counter value), each message's frames must decrypt to a prefix of
+// what its source delivered, and messages with a healthy source must still be framed exactly as the reference does.
+func failingSources(r *vf.Run, rnd *rand.Rand) {
+	n := r.Pick(400, 6000)
+	failAt := []int{0, 1, 16, 1023, 1024, 1025, 1500, 2047, 2048, 2049, 3000, 4096, 5000}
+	for i := 0; i < n; i++ {
+		r.Eval()
+		var secret [32]byte
+		rnd.Read(secret[:])
+		acc, err1 := crypto.NewSecureSessionFromSharedKey(secret)
+		ctl, err2 := crypto.NewSecureClientSessionFromSharedKey(secret)
+		if err1 != nil || err2 != nil {
+			r.Inconclusive("session constructors failed")
+			return
+		}
+		_, a2c := refctl.SessionKeys(secret[:])
+		ref := &refctl.Framer{Key: a2c} // follows the frames handed to the caller
+		k := 3 + rnd.Intn(5)
+		var hist []string
+		failedOnce := false
+		for pos := 0; pos < k; pos++ {
+			size := []int{1, 100, 1024, 1025, 2048, 3000, 4097, 6000}[rnd.Intn(8)]
+			payload := make([]byte, size)
+			rnd.Read(payload)
+			fail := pos < k-1 && rnd.Intn(2) == 0
+			delivered := size
+			var src io.Reader = bytes.NewReader(payload)
+			if fail {
+				delivered = failAt[(i+pos)%len(failAt)]
+				if delivered > size {
+					delivered = size
+				}
+				src = &failingReader{b: payload, k: delivered, chunk: 1 + rnd.Intn(1500)}
+				failedOnce = true
+				hist = append(hist, fmt.Sprintf("Encrypt(%d bytes, source fails after %d)", size, delivered))
+				r.Count("encrypt_calls_with_a_failing_source", 1)
+				r.Distinct("source_fails_after", fmt.Sprint(delivered))
+			} else {
+				hist = append(hist, fmt.Sprintf("Encrypt(%d bytes)", size))
+			}
+			witness := map[string]interface{}{"secret": vf.Hex(secret[:]), "history": hist}
+			var out []byte
+			var rd io.Reader
+			var err error
+			if p, text := vf.Recover(func() { rd, err = acc.Encrypt(src) }); p {
+				r.Violation("failing-source:panic", "Encrypt panicked when its source failed: "+text[:min(len(text), 300)], witness)
+				break
+			}
+			if rd != nil {
+				out, _ = ioutil.ReadAll(rd)
+			}
+			witness["returned_error"] = fmt.Sprint(err)
+			witness["returned_wire_bytes"] = len(out)
+			before := ref.Count
+			got, derr := ref.OpenAll(out)
+			if derr != nil {
+				sig := "failing-source:frames-not-at-consecutive-counters"
+				if !fail && failedOnce {
+					sig = "failing-source:counter-skipped-after-failed-source"
+				}
+				r.Violation(sig, fmt.Sprintf("the frames Encrypt returned for message %d do not authenticate at the counters following the %d frames handed out so far on this session: %v", pos, before, derr), witness)
+				break
+			}
+			if !bytes.HasPrefix(payload[:delivered], got) {
+				r.Violation("failing-source:not-a-prefix", fmt.Sprintf("the frames returned for message %d decrypt to %d bytes that are not a prefix of the %d bytes its source delivered", pos, len(got), delivered), witness)
+				break
+			}
+			if !fail {
+				if err != nil || !bytes.Equal(got, payload) {
+					r.Violation("failing-source:healthy-message-incomplete", fmt.Sprintf("message %d has a healthy source; Encrypt returned err=%v and frames for %d of %d bytes", pos, err, len(got), size), witness)
+					break
+				}
+				r.Count("healthy_messages_after_failures", 1)
+			}
+			if len(out) > 0 {
+				// the peer (hc's own other end) sees exactly these frames
+				dr, derr := ctl.Decrypt(bytes.NewReader(out))
+				var pg []byte
+				if dr != nil {
+					pg, _ = ioutil.ReadAll(dr)
+				}
+				if derr != nil || !bytes.Equal(pg, got) {
+					r.Violation("failing-source:peer-cannot-decrypt", fmt.Sprintf("hc's other end cannot decrypt the frames of message %d: %v (%d of %d bytes)", pos, derr, len(pg), len(got)), witness)
+					break
+				}
+			}
+		}
+	}
 }
